@@ -35,10 +35,9 @@ type Partial struct {
 	Idx     []int
 }
 
-// PartialVariants: ok and deep are proper paths; the rest is the malformed stream.  (objpath -- `path` is not an array -- is
-// not generated: encoding/json rejects the errors array in appendSubgraphError and the whole resolve fails; the loader model
-// does not decode subgraph errors.  Replay by name: `c07 show ... -faults N:partial/objpath/x/0`.)
-var PartialVariants = []string{"ok", "deep", "oob", "str", "float", "big", "neg", "negzero", "nofield", "nopath", "noroot", "nonnull", "wrongfield", "boolidx"}
+// PartialVariants: ok and deep are proper paths; the rest is the malformed stream.  objpath -- `path` is not an array --
+// used to make encoding/json fail in appendSubgraphError and abort the whole resolve (repaired, 9b487a9).
+var PartialVariants = []string{"ok", "deep", "oob", "str", "float", "big", "neg", "negzero", "nofield", "nopath", "noroot", "nonnull", "wrongfield", "boolidx", "objpath"}
 
 // Proper reports whether the subgraph named the failed entity the way the GraphQL spec says.
 func (p *Partial) Proper() bool { return p.Variant == "ok" || p.Variant == "deep" }
